@@ -191,6 +191,29 @@ class CSeq(CBase):
 _record('', CSeq, lambda o: (list(o.kids), ('CSeq', o.meta), None), CSeq.tree_unflatten, optree.AutoEntry)
 
 
+# --- 1b. re-entrant custom node: its flatten and unflatten functions call back into optree (the FlatCache pattern of user code)
+class CReent(CBase):
+    __slots__ = ()
+
+
+def _creent_flatten(o):
+    tick('flatten:CReent', o)
+    optree.tree_flatten((len(o.kids), [None]))  # a re-entrant flatten in the middle of the outer one
+    return list(o.kids), ('CReent', o.meta), None
+
+
+def _creent_unflatten(metadata, children):
+    tick('unflatten:CReent', metadata)
+    children = list(children)
+    spec = optree.tree_structure(tuple(range(len(children))))  # re-entrant flatten ...
+    rebuilt = optree.tree_unflatten(spec, children)  # ... and re-entrant unflatten with a list of leaves
+    return CReent(rebuilt, metadata[1])
+
+
+optree.register_pytree_node(CReent, _creent_flatten, _creent_unflatten, namespace=GLOBAL)
+_record('', CReent, lambda o: (list(o.kids), ('CReent', o.meta), None), _creent_unflatten, optree.AutoEntry)
+
+
 # --- 2. function-registered, global, 3-tuple with None entries, children as list, SequenceEntry
 class CList(CBase):
     __slots__ = ()
@@ -378,6 +401,39 @@ _record(
 )
 
 
+# --- 6c. a registration HISTORY behind a type that is, in the end, registered in NS only: it was also registered in two other named
+#         namespaces and globally, and unregistered there again (in that order) before any workload runs
+class CHist(CBase):
+    __slots__ = ()
+
+
+def _chist_flatten(o):
+    tick('flatten:CHist', o)
+    return tuple(o.kids), ('CHist', o.meta), None
+
+
+def _chist_other_flatten(o):
+    return (), ('CHist/other', None), None
+
+
+def _chist_unflatten(metadata, children):
+    tick('unflatten:CHist', metadata)
+    return CHist(children, metadata[1])
+
+
+HISTORY_ERRORS = []  # steps of the set-up history that did not behave (reported as violations by C02; the workloads still run)
+for _step, _ns, _fl in (('register', 'vf-hist-a', _chist_other_flatten), ('register', NS, _chist_flatten), ('register', 'vf-hist-b', _chist_other_flatten),
+                        ('register', GLOBAL, _chist_other_flatten), ('unregister', 'vf-hist-b', None), ('unregister', GLOBAL, None), ('unregister', 'vf-hist-a', None)):
+    try:
+        if _step == 'register':
+            optree.register_pytree_node(CHist, _fl, _chist_unflatten, namespace=_ns)
+        else:
+            optree.unregister_pytree_node(CHist, namespace=_ns)
+    except Exception as _e:  # noqa: BLE001
+        HISTORY_ERRORS.append(f'{_step}(CHist, namespace={_ns!r}) raised {type(_e).__name__}: {_e}')
+_record(NS, CHist, lambda o: (list(o.kids), ('CHist', o.meta), None), _chist_unflatten, optree.AutoEntry)
+
+
 # --- 7. user-defined PyTreeEntry subclass, tuple entries
 class MyEntry(optree.PyTreeEntry):
     __slots__ = ()
@@ -506,8 +562,8 @@ def _partial_flatten(o):
 
 _record('', optree.functools.partial, _partial_flatten, optree.functools.partial.tree_unflatten, optree.GetAttrEntry)
 
-CUSTOM_GLOBAL = (CSeq, CList, CMap, CAttr, CShadow, CShadow2, CUser, UDict, DCG, PDC)
-CUSTOM_NS = (CNs, DC)
+CUSTOM_GLOBAL = (CSeq, CReent, CList, CMap, CAttr, CShadow, CShadow2, CUser, UDict, DCG, PDC)
+CUSTOM_NS = (CNs, DC, CHist)
 LEAF_SUBCLASSES = (ListSub, TupleSub, DictSub, ODictSub, DDictSub, DequeSub)
 
 
